@@ -54,6 +54,10 @@ impl<R: Read + Seek> ReadBox<&mut R> for DinfBox {
                     "dinf box contains a box with a larger size than it",
                 ));
             }
+            if s == 0 {
+                // A zero-size child never advances the stream: stop instead of looping forever.
+                break;
+            }
 
             match name {
                 BoxType::DrefBox => {
@@ -165,6 +169,10 @@ impl<R: Read + Seek> ReadBox<&mut R> for DrefBox {
                 return Err(Error::InvalidData(
                     "dinf box contains a box with a larger size than it",
                 ));
+            }
+            if s == 0 {
+                // A zero-size child never advances the stream: stop instead of looping forever.
+                break;
             }
 
             match name {
